@@ -20,6 +20,14 @@ def key_term(k):
     raise EngineLimit(f"map key {k!r}")
 
 
+class _Deleted:
+    def __repr__(self):
+        return "<deleted>"
+
+
+DELETED = _Deleted()
+
+
 class SymDict(dict):
     """dict keyed by Atoms.  Content = uninterpreted initial content + explicit writes.
 
@@ -39,7 +47,15 @@ class SymDict(dict):
     # -- spec-side API ---------------------------------------------------------------------------
     def has(self, k) -> z3.BoolRef:
         k = key_term(k)
-        return z3.Or(*[k == wk for wk, _ in self.writes], self._init_has(k))
+        r = self._init_has(k)
+        for wk, wv in self.writes:  # later writes / deletions win
+            r = z3.If(k == wk, z3.BoolVal(wv is not DELETED), r)
+        return z3.simplify(r)
+
+    @property
+    def mutated(self):
+        """was the map written to or deleted from (frame conditions)"""
+        return bool(self.writes)
 
     def initial_has(self, k):
         return self._init_has(key_term(k))
@@ -52,7 +68,8 @@ class SymDict(dict):
         k = key_term(k)
         out, none_before = [], []
         for wk, wv in reversed(self.writes):
-            out.append((z3.And(*none_before, k == wk), wv))
+            if wv is not DELETED:
+                out.append((z3.And(*none_before, k == wk), wv))
             none_before.append(k != wk)
         if self._init_get is not None:
             out.append((z3.And(*none_before, self._init_has(k)), self._init_get(k)))
@@ -63,7 +80,7 @@ class SymDict(dict):
         g = self._init_get
         d = SymDict(self.name + "'", init_has=self._init_has, init_get=(lambda k: f(g(k))) if g else None,
                     nonempty=self._nonempty)
-        d.writes = [(k, f(v)) for k, v in self.writes]
+        d.writes = [(k, v if v is DELETED else f(v)) for k, v in self.writes]
         return d
 
     def written_keys(self):
